@@ -1,4 +1,12 @@
-import sys
+#!/usr/bin/env python3
+"""Resolve merge conflicts that only concern `use` lines: keep the patch's side and add those of our imports whose names it lacks.
+Other conflict blocks: keep both sides (ours first), dropping exact duplicates.  Build afterwards to see whether that made sense."""
+import re, sys
+def names(line):
+    m = re.search(r"\{(.*)\}", line)
+    if m:
+        return {x.strip().split(" as ")[-1] for x in m.group(1).split(",") if x.strip() and x.strip() != "self"}
+    return {line.rstrip(";").split("::")[-1].strip()}
 for p in sys.argv[1:]:
     out=[];mode=None;ours=[];theirs=[]
     for line in open(p).read().split("\n"):
@@ -8,8 +16,10 @@ for p in sys.argv[1:]:
             mode=None
             if all(l.startswith("use ") or not l.strip() for l in ours+theirs):
                 res=list(theirs)
+                have=set().union(*[names(l) for l in theirs if l.strip()]) if any(l.strip() for l in theirs) else set()
                 for l in ours:
-                    if "collections" in l and l not in res: res.insert(0 if not res or not res[0].startswith("use std::{") else 1, l)
+                    if l.strip() and l not in res and not (names(l) <= have):
+                        res.append(l)
                 out+=res
             else:
                 seen=set()
